@@ -168,6 +168,10 @@ class ExecutionContext:
                         second = [second]
                     combined = first + second
                     result = [combined[i] for i in indices]
+                    if instruction.Type.IsScalar():
+                        # Selecting a single component yields the component,
+                        # not a vector with one element
+                        result = result[0]
                     localScope[ref] = result
                 case LinearIR.OpCode.STORE_ARRAY:
                     ref = instruction.Reference
